@@ -39,7 +39,8 @@ def run(ev, vd):
         k, (mode, binp, topo) = j
         out = os.path.join(BUILD, "tmp", "doall_%d.ndjson" % k)
         if isinstance(binp, list):
-            rc, o, dt = conc.run_harness(binp[0], binp[1:] + [out, ev.seed * 100 + k, tier(), mode], topo=topo, timeout=900)
+            # confined to one or two CPUs: about half a minute in the quick tier; the bound is repeated once with three times its value
+            rc, o, dt = conc.run_harness(binp[0], binp[1:] + [out, ev.seed * 100 + k, tier(), mode], topo=topo, timeout=900 if tier() == "thorough" else 300)
         else:
             rc, o, dt = conc.run_harness(binp, [out, ev.seed * 100 + k, tier(), mode], topo=topo, timeout=600)
         return j, out, rc, o
